@@ -1,6 +1,7 @@
 """C07 — reading a style map never fails and never hangs."""
 import common
 import json
+import os
 import random
 import re
 import sys
@@ -36,12 +37,29 @@ class Worker:
             self.start()
         self.p.stdin.write(json.dumps(req) + "\n")
         self.p.stdin.flush()
-        r, _, _ = select.select([self.p.stdout], [], [], timeout)
-        if not r:
-            self.p.kill()
-            self.p.wait()
-            self.p = None
-            raise Hang()
+        # the limit is on the CPU time the worker spends on this request (a matcher that backtracks for ever burns CPU), with a
+        # wall-clock limit ten times as long behind it: on a loaded machine a wall-clock limit alone turned a harmless rewrite
+        # into a "hang" once (H4-r1 against C07, not reproducible alone)
+        import time
+
+        def cpu(pid):
+            try:
+                f = open("/proc/%d/stat" % pid).read().rsplit(")", 1)[1].split()
+                return (int(f[11]) + int(f[12])) / float(os.sysconf("SC_CLK_TCK"))
+            except Exception:
+                return None
+        c0, t0 = cpu(self.p.pid), time.time()
+        while True:
+            r, _, _ = select.select([self.p.stdout], [], [], 0.25)
+            if r:
+                break
+            c1 = cpu(self.p.pid)
+            used = (c1 - c0) if (c0 is not None and c1 is not None) else (time.time() - t0)
+            if used > timeout or time.time() - t0 > 10 * timeout:
+                self.p.kill()
+                self.p.wait()
+                self.p = None
+                raise Hang()
         line = self.p.stdout.readline()
         if not line:
             self.p = None
